@@ -600,6 +600,8 @@ func checkC16(c *Check) {
 	headersOwnBacking(c, "C16.R4", R)
 	transportIsOwn(c, "C16.R4")
 	responseFreshPerCheck(c, "C16.R4", R)
+	noUnsafeSharedDependencyObject(c, "C16.R1", R)
+	gatesAreOpened(c, "C16.R3")
 	// the generator a check draws its identifiers from is built for that check by the audited constructor and
 	// carries no state (C06.R2 wiring, C06.R3 independence): a generator shared by concurrent checks with a
 	// scratch buffer of its own is a data race on the identifiers themselves
@@ -828,4 +830,129 @@ func inLoop(b *ssa.BasicBlock) bool {
 		}
 	}
 	return false
+}
+
+// notConcurrencySafeTypes: dependency types whose documentation says a value must not be used by several
+// goroutines at once.
+var notConcurrencySafeTypes = map[string]string{
+	"github.com/redis/go-redis/v9.Pipeliner": "go-redis pipelines queue commands without locking",
+	"github.com/redis/go-redis/v9.Pipeline":  "go-redis pipelines queue commands without locking",
+	"github.com/redis/go-redis/v9.Tx":        "a go-redis Tx is bound to one connection and one caller",
+	"bytes.Buffer":                           "bytes.Buffer is not synchronised",
+	"strings.Builder":                        "strings.Builder is not synchronised",
+	"bufio.Reader":                           "bufio.Reader is not synchronised",
+	"bufio.Writer":                           "bufio.Writer is not synchronised",
+	"bufio.Scanner":                          "bufio.Scanner is not synchronised",
+	"math/rand.Rand":                         "a *rand.Rand is not safe for concurrent use",
+	"encoding/json.Encoder":                  "a json.Encoder writes to its stream without locking",
+	"encoding/json.Decoder":                  "a json.Decoder reads from its stream without locking",
+	"hash.Hash":                              "a hash.Hash accumulates state",
+	"hash.Hash32":                            "a hash.Hash accumulates state",
+	"hash.Hash64":                            "a hash.Hash accumulates state",
+	"crypto/cipher.Stream":                   "a cipher.Stream keeps key-stream state",
+	"text/tabwriter.Writer":                  "tabwriter.Writer buffers without locking",
+}
+
+// noUnsafeSharedDependencyObject: no own struct type that outlives a check (every own struct except the
+// per-check handler and its helpers, which C16.R4 keeps per check) has a field of a dependency type that
+// is documented as not safe for concurrent use; such an object kept in a store, provider, pool or
+// controller is used by overlapping checks without any lock the lockset analysis could see (the mutation
+// happens inside the dependency).
+func noUnsafeSharedDependencyObject(c *Check, rule string, R *Roles) {
+	P := c.P
+	n := 0
+	for _, nt := range P.ownNamedTypes() {
+		if strings.Contains(nt.Obj().Pkg().Path(), "/config/gen/") {
+			continue
+		}
+		st, ok := nt.Underlying().(*types.Struct)
+		if !ok {
+			continue
+		}
+		if R.OIDCType != nil && types.Identical(nt, R.OIDCType) {
+			continue // built per check (C16.R4)
+		}
+		n++
+		for i := 0; i < st.NumFields(); i++ {
+			ft := typeID(derefType(st.Field(i).Type()))
+			if why, bad := notConcurrencySafeTypes[ft]; bad {
+				c.Fail(rule, "unsafe-shared-object/"+typeID(nt)+"."+st.Field(i).Name(), P.Pos(st.Field(i).Pos()),
+					"field "+st.Field(i).Name()+" of the long-lived type "+typeID(nt)+" holds a "+ft+" ("+why+"): overlapping checks use it concurrently")
+			}
+		}
+	}
+	c.Obl(n >= 10, rule, "unsafe-shared-object", "-", fmt.Sprintf("%d own struct types: none keeps a dependency object that is not safe for concurrent use", n), "own struct types not enumerated (anchor lost)")
+}
+
+// gatesAreOpened: a channel field that request-path code waits on (`<-p.started`) is a start gate. The
+// function that closes it does so before it blocks itself: on every path to a receive or select (waiting
+// for the context to end) the close has already happened — a path that parks the unit without opening the
+// gate leaves every check that needs it blocked for ever.
+func gatesAreOpened(c *Check, rule string) {
+	P := c.P
+	type gate struct{ id string }
+	waits := map[string]ssa.Instruction{}
+	closes := map[string][]*ssa.Call{}
+	chanField := func(v ssa.Value) string {
+		if base, f, ok := fieldLoad(resolveCell(stripConv(v))); ok && f != nil {
+			if _, isChan := f.Type().Underlying().(*types.Chan); isChan {
+				if n, isN := derefType(base.Type()).(*types.Named); isN && n.Obj().Pkg() != nil && isOwnPath(n.Obj().Pkg().Path()) {
+					return typeID(n) + "." + f.Name()
+				}
+			}
+		}
+		return ""
+	}
+	for _, fn := range P.Funcs {
+		if !isOwnPath(pkgPathOf(fn)) {
+			continue
+		}
+		for _, b := range fn.Blocks {
+			for _, ins := range b.Instrs {
+				switch x := ins.(type) {
+				case *ssa.UnOp:
+					if x.Op == token.ARROW {
+						if id := chanField(x.X); id != "" {
+							waits[id] = x
+						}
+					}
+				case *ssa.Call:
+					if bi, isB := x.Call.Value.(*ssa.Builtin); isB && bi.Name() == "close" && len(x.Call.Args) == 1 {
+						if id := chanField(x.Call.Args[0]); id != "" {
+							closes[id] = append(closes[id], x)
+						}
+					}
+				}
+			}
+		}
+	}
+	n := 0
+	for id, w := range waits {
+		cl := closes[id]
+		if len(cl) == 0 {
+			continue // a channel that is sent on, not a close-gate
+		}
+		n++
+		for _, cc := range cl {
+			fn := cc.Parent()
+			bad := ""
+			for _, b := range fn.Blocks {
+				for _, ins := range b.Instrs {
+					blocking := false
+					switch x := ins.(type) {
+					case *ssa.UnOp:
+						blocking = x.Op == token.ARROW && chanField(x.X) != id
+					case *ssa.Select:
+						blocking = x.Blocking
+					}
+					if blocking && !mustPassBefore(fn, ins, func(i ssa.Instruction) bool { return i == ssa.Instruction(cc) }) {
+						bad = posOf(P, ins)
+					}
+				}
+			}
+			c.Obl(bad == "", rule, "gate-opened-before-blocking/"+id, P.Pos(cc.Pos()), "the gate "+id+" (awaited at "+posOf(P, w)+") is closed before "+fnKey(fn)+" blocks",
+				fnKey(fn)+" can block at "+bad+" without having closed the gate "+id+", which "+fnKey(w.Parent())+" waits on: those callers never return")
+		}
+	}
+	c.Obl(n >= 1, rule, "gates", "-", fmt.Sprintf("%d start gate(s) found", n), "no start gate found (the JWKS provider's `started` channel is the anchor of this rule)")
 }
